@@ -196,11 +196,11 @@ func describeValue(v ssa.Value) string {
 
 func init() {
 	register(&Prop{
-		ID:    "C15",
-		Title: "Emulated failures fail every data call, change nothing, and are reversible",
-		Decided: "per client package: (R1) every DynamoDB data method (classified by SDK operation name) tests Client.forceFailureErr with the mutex held, and every instruction that touches client/table state lies on the nil edge of that test – so a failing call changes nothing because it never reaches state; (R2) the non-nil edge returns the configured error value itself with no output; (R3) BatchWriteItem does not short-circuit on the failure but routes every request through the client's own checked PutItem/DeleteItem, unconditionally for every request of every table, and its error handler turns a non-nil error into nil only after appending the request to the unprocessed map that is returned; (R4) the condition table has an entry for every FailureCondition constant with None ↦ nil, the three public switches reach the single writer of forceFailureErr with the right constants; (R5) the v1 and v2 summaries agree; WithContext wrappers are pure delegations.",
+		ID:         "C15",
+		Title:      "Emulated failures fail every data call, change nothing, and are reversible",
+		Decided:    "per client package: (R1) every DynamoDB data method (classified by SDK operation name) tests Client.forceFailureErr with the mutex held, and every instruction that touches client/table state lies on the nil edge of that test – so a failing call changes nothing because it never reaches state; (R2) the non-nil edge returns the configured error value itself with no output; (R3) BatchWriteItem does not short-circuit on the failure but routes every request through the client's own checked PutItem/DeleteItem, unconditionally for every request of every table, and its error handler turns a non-nil error into nil only after appending the request to the unprocessed map that is returned; (R4) the condition table has an entry for every FailureCondition constant with None ↦ nil, the three public switches reach the single writer of forceFailureErr with the right constants; (R5) the v1 and v2 summaries agree; WithContext wrappers are pure delegations.",
 		NotDecided: "equality of states before/after is never computed (the argument is that no state-touching instruction is reachable on the failure edge); behaviour of the SDK error types; value of the error message.",
-		Assumes: []string{"data operations are identified by DynamoDB API operation names (PutItem, GetItem, DeleteItem, UpdateItem, Query, Scan, BatchWriteItem, BatchGetItem, Transact*, Execute*) and their WithContext variants"},
+		Assumes:    []string{"data operations are identified by DynamoDB API operation names (PutItem, GetItem, DeleteItem, UpdateItem, Query, Scan, BatchWriteItem, BatchGetItem, Transact*, Execute*) and their WithContext variants"},
 		Rules: []RuleDef{
 			{ID: "R1", Desc: "failure test present, under the lock, dominating all state access (T-DOM + lockset)", Run: func(e *Engine) {
 				for _, role := range clientRoles {
